@@ -6,6 +6,7 @@
 #include "seams.h"
 #include "prng.h"
 #include <errno.h>
+#include <sys/uio.h>
 #include <fcntl.h>
 #include <stdarg.h>
 #include <stdlib.h>
@@ -55,18 +56,18 @@ size_t sim_wlog(uint32_t *sizes, size_t max)
 	return W.nlog;
 }
 
-static ssize_t do_short(int fd, const void *buf, size_t n, uint32_t arg)
+/* One decision per call of the write family (write, writev, pwrite, pwritev all count as calls of the same
+ * sequence): how many of the n bytes requested go through.  Returns n for a full write, 1..n-1 for a short one,
+ * -1 with errno set for EINTR or a hard error. */
+static ssize_t short_len(size_t n, uint32_t arg)
 {
-	if (n <= 1) { W.st.full++; W.st.bytes += n; return write(fd, buf, n); }
+	if (n <= 1) { W.st.full++; W.st.bytes += n; return (ssize_t)n; }
 	size_t k = 1 + arg % (n - 1);
 	W.st.shorts++; W.st.bytes += k;
-	return write(fd, buf, k);
+	return (ssize_t)k;
 }
-
-ssize_t sim_write(int fd, const void *buf, size_t n)
+static ssize_t decide(size_t n)
 {
-	if (W.mode == 0)
-		return write(fd, buf, n);
 	W.st.calls++;
 	if (W.mode == 1) {
 		/* one logical write call of the caller = consecutive attempts; the
@@ -79,7 +80,7 @@ ssize_t sim_write(int fd, const void *buf, size_t n)
 		if (W.pos < W.nlist && W.list[W.pos].call == call) {
 			struct sim_wfault f = W.list[W.pos++];
 			switch (f.kind) {
-			case WF_SHORT: W.eintr_run = 0; return do_short(fd, buf, n, f.arg);
+			case WF_SHORT: W.eintr_run = 0; return short_len(n, f.arg);
 			case WF_EINTR:
 				W.st.eintrs++;
 				if (++W.eintr_run == 2) W.st.eintr_runs2++;
@@ -90,7 +91,7 @@ ssize_t sim_write(int fd, const void *buf, size_t n)
 		}
 		W.eintr_run = 0;
 		W.st.full++; W.st.bytes += n;
-		return write(fd, buf, n);
+		return (ssize_t)n;
 	}
 	/* profile */
 	W.st.call_sizes_hash = (W.st.call_sizes_hash ^ n) * 1099511628211ULL;
@@ -102,9 +103,59 @@ ssize_t sim_write(int fd, const void *buf, size_t n)
 	}
 	W.eintr_run = 0;
 	if (r < (uint64_t)(W.eintr_pm + W.short_pm))
-		return do_short(fd, buf, n, (uint32_t)prng_next(&W.rng));
+		return short_len(n, (uint32_t)prng_next(&W.rng));
 	W.st.full++; W.st.bytes += n;
-	return write(fd, buf, n);
+	return (ssize_t)n;
+}
+
+ssize_t sim_write(int fd, const void *buf, size_t n)
+{
+	if (W.mode == 0) return write(fd, buf, n);
+	ssize_t k = decide(n);
+	return k < 0 ? -1 : write(fd, buf, (size_t)k);
+}
+ssize_t sim_pwrite(int fd, const void *buf, size_t n, off_t off)
+{
+	if (W.mode == 0) return pwrite(fd, buf, n, off);
+	ssize_t k = decide(n);
+	return k < 0 ? -1 : pwrite(fd, buf, (size_t)k, off);
+}
+/* the first k bytes of an iovec array */
+static int clip_iov(const struct iovec *iov, int cnt, size_t k, struct iovec *out)
+{
+	int m = 0;
+	for (int i = 0; i < cnt && k > 0 && m < 64; i++) {
+		if (iov[i].iov_len == 0) continue;
+		out[m] = iov[i];
+		if (out[m].iov_len > k) out[m].iov_len = k;
+		k -= out[m].iov_len;
+		m++;
+	}
+	return m;
+}
+ssize_t sim_writev(int fd, const struct iovec *iov, int cnt)
+{
+	if (W.mode == 0 || cnt > 64) return writev(fd, iov, cnt);
+	size_t n = 0;
+	for (int i = 0; i < cnt; i++) n += iov[i].iov_len;
+	ssize_t k = decide(n);
+	if (k < 0) return -1;
+	struct iovec c[64];
+	int m = clip_iov(iov, cnt, (size_t)k, c);
+	W.st.vectored++;
+	return writev(fd, c, m);
+}
+ssize_t sim_pwritev(int fd, const struct iovec *iov, int cnt, off_t off)
+{
+	if (W.mode == 0 || cnt > 64) return pwritev(fd, iov, cnt, off);
+	size_t n = 0;
+	for (int i = 0; i < cnt; i++) n += iov[i].iov_len;
+	ssize_t k = decide(n);
+	if (k < 0) return -1;
+	struct iovec c[64];
+	int m = clip_iov(iov, cnt, (size_t)k, c);
+	W.st.vectored++;
+	return pwritev(fd, c, m, off);
 }
 
 /* ----------------------------------------------------------------- ledger */
